@@ -77,8 +77,9 @@ func (a *application) start(mode gen.ApplicationMode, options gen.ApplicationOpt
 			atomic.StoreInt32(&a.state, int32(gen.ApplicationStateLoaded))
 			return err
 		}
-
-		a.group.Store(pid, true)
+		// the member has been added to a.group by node.spawn, before it
+		// started running (it may have terminated already)
+		_ = pid
 	}
 
 	a.node.log.Info("application %s (%s) started", a.spec.Name, a.mode)
